@@ -135,6 +135,12 @@ def simulation(args_dict):
         if verb < 1:
             cfg['simulation_options']['tqdm_opts'] = False
 
+        # The option `cell_number` of the CLI is called `cell_numbers` in
+        # the gridding options of a Simulation.
+        gopts = cfg['simulation_options'].get('gridding_opts', {})
+        if 'cell_number' in gopts:
+            gopts['cell_numbers'] = [int(n) for n in gopts.pop('cell_number')]
+
         # Create simulation.
         sim = simulations.Simulation(
                 survey=survey,
